@@ -1,5 +1,5 @@
 (** C09 - Server and workers survive every message order and fault (no reachable panic). *)
-From HQ Require Import Base.Prelude Cluster.Types Cluster.Core Cluster.Reactor Cluster.Worker Cluster.Server Cluster.Sys Cluster.Monitors Cluster.ProofsJob Cluster.ProofsCore Cluster.ProofsMore Cluster.RejHyp Cluster.BijFinal Cluster.InvProcsDef Cluster.InvBundle Cluster.NoPanicC5 Cluster.NoPanicC6 Cluster.NoPanicC7 Cluster.NoPanicL0 Cluster.NoPanicL4 Cluster.NoPanicS7 Cluster.NoPanicS8 Cluster.NoPanicAll Cluster.RetractFree Cluster.BijCore Cluster.BijReact Cluster.NoPanicU0 Cluster.NoPanicU1 Cluster.NoPanicU20 Cluster.NoPanicU26 Cluster.NoPanicU29 Cluster.NoFresh Cluster.NoPanicFull.
+From HQ Require Import Base.Prelude Cluster.Types Cluster.Core Cluster.Reactor Cluster.Worker Cluster.Server Cluster.Sys Cluster.Monitors Cluster.ProofsJob Cluster.ProofsCore Cluster.ProofsMore Cluster.RejHyp Cluster.BijFinal Cluster.InvProcsDef Cluster.InvBundle Cluster.NoPanicC5 Cluster.NoPanicC6 Cluster.NoPanicC7 Cluster.NoPanicL0 Cluster.NoPanicL4 Cluster.NoPanicS7 Cluster.NoPanicS8 Cluster.NoPanicAll Cluster.RetractFree Cluster.BijCore Cluster.BijReact Cluster.NoPanicU0 Cluster.NoPanicU1 Cluster.NoPanicU20 Cluster.NoPanicU26 Cluster.NoPanicU29 Cluster.NoFresh Cluster.NoPanicFull Cluster.NoWf.
 From Coq Require Import ZArith.
 Local Open Scope N_scope.
 
@@ -109,6 +109,12 @@ Proof. exact open_total. Qed.
 Theorem C09_job_layer_invariant : forall ops s s', HOK (hq_of s) -> jrun s ops = Ok s' -> HOK (hq_of s').
 Proof. exact jrun_ok. Qed.
 
+(** ... and without [op_wf]: since the repair of finding F26 an ill-formed array submit is refused (a
+    stutter step), so the executable [run_hyp] is the ONLY hypothesis. *)
+Theorem C09_no_reachable_panic_nowf : forall ops reserve maxfill,
+  run_hyp (init_sys reserve maxfill) ops = true -> is_panic (run (init_sys reserve maxfill) ops) = false.
+Proof. exact no_reachable_panic_nowf. Qed.
+
 Print Assumptions C09_server_never_panics.
 Print Assumptions C09_client_requests_total.
 Print Assumptions C09_scheduling_never_panics.
@@ -129,3 +135,4 @@ Print Assumptions C09_worker_process_never_panics.
 Print Assumptions C09_no_panic_hypotheses_satisfiable.
 Print Assumptions C09_f28_history_excluded.
 Print Assumptions C09_f28_panic_reachable_without_repair.
+Print Assumptions C09_no_reachable_panic_nowf.
